@@ -103,8 +103,8 @@ CHECKS = {
             "DESIGN.md §6 C16"),
     "C17": ("exploration",
             "model-based stateful property-based testing (proptest request histories by several persons) of the real server binary with database inspection after every step, plus schedule-owning runs (a request paused between two database commands by the stub)",
-            "Generated multi-person request histories are executed against the server built from the current tree; a reference model predicts every response, a model-free marker invariant detects any cross-user leak, and the stub database is inspected after every step for ownership and credential storage (salted argon2 hash, no plaintext, fresh salts).",
-            "Request-granularity interleavings plus one request paused at database-command granularity; persons never share passwords (shared accounts / stale cookies out of scope); hash checked by format, non-containment and salt freshness.",
+            "Generated multi-person request histories are executed against the server built from the current tree; a reference model predicts every response, a model-free marker invariant detects any cross-user leak, and the stub database is inspected after every step for ownership and credential storage (salted argon2 hash, no plaintext, fresh salts). Further parts: one request paused between two database commands while others run (registration races, take-overs), and persons holding two sessions (model-free invariants).",
+            "Request-granularity interleavings plus one request paused at database-command granularity; persons never share passwords (shared accounts out of scope); sessions that outlive their account are generated by the model-free part second-session (open finding K6); hash checked by format, non-containment and salt freshness.",
             "DESIGN.md §6 C17"),
 }
 
